@@ -42,6 +42,13 @@ A2RProps(s, i, t) ==
           [] ~A2RClear(s, i) /\ A2RXfer(s, i) -> t.loaded = 1 /\ t.q = i.tdata
           [] OTHER -> t.loaded = s.loaded /\ t.q = s.q]
 
+\* p = observation with the inputs of this cycle applied but BEFORE the edge: READY must follow `active` there as well
+\* (a READY that depends combinationally on the control inputs is low while the adapter is still active), and
+\* applying inputs alone changes no register
+A2RPreProps(s, i, p) ==
+    [ready_iff_active_before_edge |-> p.tready = p.active,
+     registers_hold_until_edge |-> p.active = s.active /\ p.loaded = s.loaded /\ p.q = s.q]
+
 \* ---------------------------------------------------------------- Reg2Axi
 \* state/observation: [active, tvalid, tdata, tlast, tkeep, sent]
 \* inputs: [start, reset, done, load, regin, tready]
@@ -72,6 +79,11 @@ R2AProps(s, i, t, g) ==
      keep_constant |-> t.tkeep = s.tkeep,
      sent_only_after_accept |-> (t.sent = 1 /\ s.sent = 0) => R2AAccepted(s, i),
      active_ref |-> t.active = ActiveRef(s, i)]
+
+\* VALID, DATA, LAST and the flags stay what they were until the edge, whatever the peer and the control inputs do
+R2APreProps(s, i, p) ==
+    [stable_until_edge |-> p.tvalid = s.tvalid /\ p.tdata = s.tdata /\ p.tlast = s.tlast /\ p.tkeep = s.tkeep
+                           /\ p.sent = s.sent /\ p.active = s.active]
 
 AllTrue(r) == \A f \in DOMAIN r : r[f]
 FirstFalse(r) == CHOOSE f \in DOMAIN r : ~r[f]
